@@ -21,8 +21,9 @@ RULE = ("per generated decode function: all-zero, all-ones, in-range backgrounds
         "a range error; distinct by (function, payload)")
 TRUSTED = ["tools/tr_pgns.py, tools/tr_db.py (translators); Fields.v/PyNum.v hand models of utils.py decoders and of "
            "CPython int/float arithmetic (bit-exact PrimFloat), tied by the correspondence cases of this run"]
-ASSUMPTIONS = ["text fields: ASCII bytes plus single invalid bytes (0x80-0xC1, 0xF5-0xFF) are modelled; other UTF-8 and "
-               "UTF-16 text is Unmodelled (counted, not compared)",
+ASSUMPTIONS = ["text fields: ASCII bytes plus single invalid bytes (0x80-0xC1, 0xF5-0xFF) are modelled, UTF-16 text of the basic "
+               "plane (with or without byte-order mark) is modelled; multi-byte UTF-8 and UTF-16 surrogates are Unmodelled "
+               "(counted, not compared)",
                "struct.unpack('<f') widening and int->float conversion are modelled exactly (IEEE-754)"]
 
 IMP = ("From NV Require Import Base Bits Defn PyNum Fields CorrFields.\n"
@@ -59,8 +60,21 @@ def gen(ctx):
     if m:
         ctx.notes.append(f"database PGN groups {m.group(1)}; definitions owning a function {m.group(2)} (all compared step by "
                          f"step with the template); fixed-layout definitions covered by the semantic theorem C01: {m.group(3)} "
-                         f"with {m.group(4)} of {m.group(5)} database fields; the remaining definitions (variable-length strings, "
-                         f"fields without BitOffset, indirect lookup) are covered by the table obligation and the correspondence only")
+                         f"with {m.group(4)} of {m.group(5)} database fields (field-by-field specification spec_decode); the remaining "
+                         f"definitions (variable-length strings, fields without BitOffset, indirect lookup) are covered by "
+                         f"C01_var below")
+    mv = re.search(r"=\s*\((\d+)%nat,\s*(\d+)%nat,\s*(\d+)%nat,\s*(\d+)%nat,\s*(\d+)%nat,\s*(\d+)%nat,\s*(\[[^\]]*\])\)",
+                   " ".join(out.split()))
+    if mv:
+        ctx.notes.append(f"C01_var (position-threading specification spec_decode_var, SpecVar.v): covers {mv.group(2)} of "
+                         f"{mv.group(1)} definitions owning a function, {mv.group(3)} of them not fixed-layout (STRING_LAU / "
+                         f"STRING_LZ, fields without BitOffset, BitLengthField, INDIRECT_LOOKUP), {mv.group(4)} of {mv.group(5)} "
+                         f"fields; BitOffsets equal to the running position in {mv.group(6)} definitions; PGNs outside: {mv.group(7)}")
+    okv, outv = G.compile_template("CorrC01Var")
+    ctx.corr_var_ok = okv
+    if not okv:
+        ctx.extra_obligations.append({"name": "CorrC01Var.v (tables for the specification checker)", "ok": False,
+                                      "detail": outv[-800:]})
     if not ok:
         ok2, out2 = G.compile_template("DiagC01")
         ctx.hints.append({"kind": "tables", "diag": " ".join(out2.split())[-1500:]})
@@ -128,7 +142,216 @@ def correspond(ctx):
               distinct_nontrivial=distinct_count([(a, b) for a, b, _ in vraw]), unmodelled=r2.get("counted", 0),
               failing_cases=[{"fn": vraw[k][0], "payload": vraw[k][1], "class": vraw[k][2]} for k in r2["failing"][:30]],
               samples=[{"fn": vraw[k][0], "payload": hex(vraw[k][1]), "class": vraw[k][2]} for k in (0, len(vraw) - 1)] if vraw else [])
-    return [r, r2] + _unit_cases(ctx) + E2E.correspond(ctx, prop="C01", n_tcp=ctx.n(40, 300), n_other=ctx.n(10, 60), n_wide=ctx.n(50, 400))
+    return [r, r2] + _var_layout_cases(ctx, fns, grp) + _unit_cases(ctx) + E2E.correspond(ctx, prop="C01", n_tcp=ctx.n(40, 300), n_other=ctx.n(10, 60), n_wide=ctx.n(50, 400))
+
+
+# ------------------------------------------------------------------ variable-layout definitions: the SPECIFICATION
+# spec_decode_var (SpecVar.v, evaluated on the DATABASE definition) against the real generated decoder, on payloads
+# built for what the fixed-layout classes never reach: both STRING_LAU encodings, byte-order marks, zero-length
+# strings, length bytes below 2, length bytes pointing past the end of the payload, payloads that end before a field,
+# BitLengthField values 0 / not a multiple of 8 / not available, INDIRECT_LOOKUP pairs inside and outside the table.
+LAU_KINDS = ("ascii", "utf16", "utf16bom", "utf16be", "utf16odd", "empty1", "empty0", "n0", "n1", "past", "past0",
+             "enc2", "nul", "invalid", "absent")
+LZ_KINDS = ("text", "zero", "past", "noterm", "invalid", "absent")
+_U16 = ["wórld", "µΩ €", "Zürich", "A", "\ufeffB", "\u4e2d\u6587", "\x00x"]
+
+
+def _is_var_layout(d) -> bool:
+    return any("BitOffset" not in f or "BitLength" not in f or f["FieldType"] in ("INDIRECT_LOOKUP", "STRING_LZ", "STRING_LAU")
+               for f in d["Fields"])
+
+
+def _lau_bytes(kind, rng):
+    """bytes of one STRING_LAU field; None = the payload ends here"""
+    t = bytes(rng.choice(b"ABCdef 123") for _ in range(rng.randrange(1, 9)))
+    u = rng.choice(_U16)
+    if kind == "ascii":
+        return bytes([len(t) + 2, 1]) + t
+    if kind == "utf16":
+        e = u.encode("utf-16-le")
+        return bytes([len(e) + 2, 0]) + e
+    if kind == "utf16bom":
+        e = b"\xff\xfe" + u.encode("utf-16-le")
+        return bytes([len(e) + 2, 0]) + e
+    if kind == "utf16be":
+        e = b"\xfe\xff" + u.encode("utf-16-be")
+        return bytes([len(e) + 2, 0]) + e
+    if kind == "utf16odd":
+        e = u.encode("utf-16-le") + b"Q"
+        return bytes([len(e) + 2, 0]) + e
+    if kind == "empty1":
+        return bytes([2, 1])
+    if kind == "empty0":
+        return bytes([2, 0])
+    if kind == "n0":
+        return bytes([0, 1]) + t
+    if kind == "n1":
+        return bytes([1, rng.choice([0, 1])]) + t
+    if kind == "past":      # announces more bytes than follow
+        return bytes([len(t) + 2 + rng.randrange(1, 40), 1]) + t
+    if kind == "past0":
+        e = u.encode("utf-16-le")
+        return bytes([len(e) + 2 + rng.randrange(1, 40), 0]) + e
+    if kind == "enc2":
+        return bytes([len(t) + 2, rng.choice([2, 7, 255])]) + t
+    if kind == "nul":
+        e = t[:2] + b"\x00" * rng.randrange(1, 4)
+        return bytes([len(e) + 2, 1]) + e
+    if kind == "invalid":   # bytes that are not UTF-8 on their own (dropped by errors='ignore')
+        e = bytes(rng.choice(b"AB\x80\xbf\xc0\xc1\xf5\xff") for _ in range(rng.randrange(1, 8)))
+        return bytes([len(e) + 2, 1]) + e
+    return None
+
+
+def _lz_bytes(kind, rng):
+    t = bytes(rng.choice(b"ABCdef 123") for _ in range(rng.randrange(1, 9)))
+    if kind == "text":
+        return bytes([len(t)]) + t + b"\x00"
+    if kind == "zero":
+        return b"\x00\x00"
+    if kind == "past":
+        return bytes([len(t) + rng.randrange(1, 40)]) + t
+    if kind == "noterm":
+        return bytes([len(t)]) + t + b"XY"
+    if kind == "invalid":
+        e = bytes(rng.choice(b"AB\x80\xbf\xc0\xf5\xff") for _ in range(rng.randrange(1, 8)))
+        return bytes([len(e)]) + e + b"\x00"
+    return None
+
+
+def compose_var(d, rng, kinds=None, blf=None, cut=None, mode="inrange", raw=None):
+    """payload for a variable-layout definition, laid out consecutively as canboat prescribes.
+    kinds: field index -> string kind; blf: value for the field a BitLengthField names; cut: the payload ends before
+    field number cut; raw: field index -> raw bits"""
+    kinds, raw = kinds or {}, raw or {}
+    p, off = 0, 0
+    blf_idx = {f["BitLengthField"] - 1: i for i, f in enumerate(d["Fields"]) if "BitLengthField" in f}
+    announced = {}
+    for i, f in enumerate(d["Fields"]):
+        if cut is not None and i >= cut:
+            break
+        if "BitOffset" in f:
+            off = f["BitOffset"]
+        t = f["FieldType"]
+        if t == "STRING_LAU" or (t == "STRING_LZ" and "BitLength" not in f) or (t == "STRING_LZ" and i in kinds):
+            b = (_lau_bytes if t == "STRING_LAU" else _lz_bytes)(kinds.get(i, "ascii" if t == "STRING_LAU" else "text"), rng)
+            if b is None:
+                break
+            p |= int.from_bytes(b, "little") << off
+            off += 8 * len(b) if "BitLength" not in f or t == "STRING_LAU" else f["BitLength"]
+        elif "BitLength" in f:
+            n = f["BitLength"]
+            if i in raw:
+                v = raw[i] & ((1 << n) - 1)
+            elif i in blf_idx and blf is not None:
+                v = blf & ((1 << n) - 1)
+                announced[blf_idx[i]] = v
+            elif "Match" in f:
+                v = f["Match"]
+            elif t in PL.UNSUPPORTED or t in ("INDIRECT_LOOKUP", "BINARY", "BITLOOKUP", "RESERVED", "SPARE", "LOOKUP"):
+                v = rng.getrandbits(n)
+            elif mode == "random":
+                v = rng.getrandbits(n)
+            else:
+                v = PL.in_range_raw(f, rng)
+                if i in blf_idx:
+                    announced[blf_idx[i]] = v
+            p |= v << off
+            off += n
+        elif t == "BINARY":
+            n = announced.get(i, 16)
+            n = n if n < 4000 else 64
+            p |= rng.getrandbits(n + rng.choice([0, 0, 3, 8])) << off     # sometimes more bits than announced follow
+            off += n
+        else:
+            break
+    return p
+
+
+def _var_layout_payloads(d, rng, ctx):
+    out = []
+    fs = d["Fields"]
+    lau = [i for i, f in enumerate(fs) if f["FieldType"] == "STRING_LAU"]
+    lz = [i for i, f in enumerate(fs) if f["FieldType"] == "STRING_LZ"]
+    blf = [i for i, f in enumerate(fs) if "BitLengthField" in f]
+    ind = [i for i, f in enumerate(fs) if f["FieldType"] == "INDIRECT_LOOKUP"]
+    if not PL.supported(d):
+        return [("unsupported", compose_var(d, rng)), ("unsupported-zero", 0)]
+    for k in LAU_KINDS if lau else ():
+        tgt = rng.choice(lau)
+        kinds = {i: (k if i == tgt else rng.choice(("ascii", "utf16", "empty1"))) for i in lau}
+        out.append((f"lau:{k}@{tgt}", compose_var(d, rng, kinds)))
+    if len(lau) > 1:
+        for k in ("utf16", "empty0", "n0", "past"):
+            out.append((f"lau-all:{k}", compose_var(d, rng, {i: k for i in lau})))
+    for k in LZ_KINDS if lz else ():
+        out.append((f"lz:{k}", compose_var(d, rng, {i: k for i in lz})))
+    for i in blf:
+        lf = fs[fs[i]["BitLengthField"] - 1]
+        top = (1 << lf["BitLength"]) - 1
+        for v in (0, 1, 7, 8, 9, 13, 16, 31, 33, 64, top, top - 1, top - 2, rng.randrange(0, 200)):
+            out.append((f"blf:{v}", compose_var(d, rng, blf=v)))
+    for i in ind:
+        import json as _json
+        tbl = next(t for t in PL.db()["LookupIndirectEnumerations"] if t["Name"] == fs[i]["LookupIndirectEnumeration"])
+        ref = fs[i]["LookupIndirectEnumerationFieldOrder"] - 1
+        pairs = [(e["Value1"], e["Value2"]) for e in tbl["EnumValues"]]
+        for _ in range(ctx.n(10, 40)):
+            v1, v2 = rng.choice(pairs) if rng.random() < 0.7 else (rng.getrandbits(7), rng.getrandbits(8))
+            out.append((f"indirect:{v1}_{v2}", compose_var(d, rng, raw={ref: v1, i: v2})))
+    for c in sorted({rng.randrange(1, len(fs) + 1) for _ in range(3)}):
+        out.append((f"cut:{c}", compose_var(d, rng, cut=c)))
+    out.append(("zero", 0))
+    out.append(("random", compose_var(d, rng, {i: rng.choice(LAU_KINDS) for i in lau}, mode="random")))
+    for _ in range(ctx.n(2, 8)):
+        out.append(("mixed", compose_var(d, rng, {i: rng.choice(LAU_KINDS[:-1]) for i in lau} | {i: rng.choice(LZ_KINDS[:-1]) for i in lz})))
+    return out
+
+
+def _var_layout_cases(ctx, fns, grp):
+    if not getattr(ctx, "corr_var_ok", False):
+        return []
+    rng = ctx.rng
+    cases, rawc = [], []
+    dist = {}
+    for d in PL.definitions():
+        if not _is_var_layout(d):
+            continue
+        g = grp[d["PGN"]]
+        multi = len(g) > 1 and any("Match" in f for x in g for f in x["Fields"])
+        if not multi and d is not g[-1]:
+            continue        # shadowed: the bound function decodes the later definition
+        name = "decode_pgn_" + PL.func_suffix(d, g)
+        fn = fns.get(name)
+        if fn is None:
+            continue
+        for label, p in _var_layout_payloads(d, rng, ctx):
+            lit, r = obs.ores(fn, p)
+            head = label.split("@")[0]
+            kd = head if head.startswith(("lau", "lz")) else head.split(":")[0]
+            dist[kd] = dist.get(kd, 0) + 1
+            cases.append(ctuple(_fname_lit(name), cz(p), lit))
+            rawc.append((name, p, label, None if isinstance(r, BaseException) else [repr(f.value) for f in r.fields]))
+    IMPV = ("From NV Require Import Base Bits Defn PyNum Fields CorrFields CorrSpecVar.\n"
+            "From NVGen Require Import CorrC01Var.")
+    r = run_cases("C01", "specvar", IMPV, "fname * Z * ores", "chk_spec", cases, shard=100, count="unmodelled_spec")
+    r.update(name="variable-layout definitions: real decode_pgn_* vs the SPECIFICATION spec_decode_var on the database "
+                  "definition (string encodings, zero / short / overlong length bytes, truncated payloads, BitLengthField, "
+                  "INDIRECT_LOOKUP)",
+             distinct_nontrivial=distinct_count([(a, b) for a, b, _, _ in rawc]), unmodelled=r.get("counted", 0),
+             distribution=dist,
+             failing_cases=[{"fn": rawc[k][0], "payload": rawc[k][1], "payload_hex": hex(rawc[k][1]), "class": rawc[k][2],
+                             "observed": rawc[k][3]} for k in r["failing"][:30]],
+             samples=[{"fn": rawc[k][0], "payload": hex(rawc[k][1]), "class": rawc[k][2]} for k in (0, len(rawc) // 2, len(rawc) - 1)] if rawc else [])
+    if not (ctx.thorough or r["failing"] or r["errors"]):
+        return [r]      # by C01_var the specification IS run_ddef on these definitions; the model run is the diagnosis
+    r2 = run_cases("C01", "specvar_model", IMP, "fname * Z * ores", f"chk_decode {CHK}", cases, shard=100,
+                   count=f"is_unmodelled {CHK}")
+    r2.update(name="variable-layout definitions, the same payloads: real decode_pgn_* vs run_ddef on the translated tables",
+              distinct_nontrivial=0, unmodelled=r2.get("counted", 0),
+              failing_cases=[{"fn": rawc[k][0], "payload": rawc[k][1], "payload_hex": hex(rawc[k][1]), "class": rawc[k][2],
+                              "observed": rawc[k][3]} for k in r2["failing"][:30]], samples=[])
+    return [r, r2]
 
 
 def _num(x):
@@ -350,6 +573,14 @@ def expected_fields(d, p, tables):
                 exp["value"] = ("text", ", ".join(tb[b] for b in range(n) if bits >> b & 1 and b in tb), bits)
             elif t in ("RESERVED", "SPARE"):
                 exp["value"] = ("int", bits)
+            elif t == "INDIRECT_LOOKUP":
+                # canboat: the name under the pair (bits of the field named by ...FieldOrder, own bits)
+                rf = d["Fields"][f["LookupIndirectEnumerationFieldOrder"] - 1]
+                if "BitOffset" in rf and "BitLength" in rf:
+                    rb = (p >> rf["BitOffset"]) & ((1 << rf["BitLength"]) - 1)
+                    exp["value"] = ("lookup", LI[f["LookupIndirectEnumeration"]].get((rb, bits)), bits)
+            elif t == "STRING_LZ":
+                _lz_expect(exp, p, off)
             elif t == "BINARY":
                 exp["value"] = ("bin", bits)
             elif t == "FLOAT":
@@ -366,9 +597,25 @@ def expected_fields(d, p, tables):
             off += n
         elif t == "STRING_LAU" and positions_known:
             ln = (p >> off) & 0xFF
+            enc = (p >> (off + 8)) & 0xFF
             if ln < 2:
                 in_range = False          # not a well-formed variable-length string
+            elif off + 8 * ln <= 8 * ((p.bit_length() + 7) // 8 + 1):
+                # canboat: n = total length with the two header bytes, encoding 0 = UTF-16, 1 = ASCII/UTF-8; the text is
+                # stated only when the declared bytes lie inside the payload (one zero byte past its end is granted:
+                # the decoder's argument is an integer) and need no codec judgement (ASCII; UTF-16 units of the basic
+                # plane, no byte-order mark)
+                body = ((p >> (off + 16)) & ((1 << (8 * (ln - 2))) - 1)).to_bytes(ln - 2, "little")
+                if enc == 1 and all(b < 128 for b in body):
+                    exp["value"] = ("text", body.decode("ascii"))
+                elif enc == 0 and len(body) % 2 == 0:
+                    units = [body[k] | body[k + 1] << 8 for k in range(0, len(body), 2)]
+                    if all(not 0xD800 <= u <= 0xDFFF for u in units) and (not units or units[0] not in (0xFEFF, 0xFFFE)):
+                        exp["value"] = ("text", "".join(map(chr, units)))
             off += 8 * ln
+        elif t == "STRING_LZ" and positions_known:
+            _lz_expect(exp, p, off)
+            positions_known = False
         elif n is None:
             positions_known = False
             if t != "BINARY" or i != len(d["Fields"]) - 1:
@@ -378,8 +625,21 @@ def expected_fields(d, p, tables):
             lv = next((e for j, e in out if j == f["BitLengthField"] - 1), {}).get("value")
             if lv is None or lv[0] != "num":
                 in_range = False          # the announced length is absent: not a well-formed payload
+            elif n is None and "BitOffset" in f and lv[1].denominator == 1 and lv[1] >= 0 and \
+                    all("BitOffset" in x and "BitLength" in x for x in d["Fields"][:i]):
+                # canboat: the field has as many bits as the named field's value announces
+                exp["value"] = ("bin", (p >> f["BitOffset"]) & ((1 << int(lv[1])) - 1))
         out.append((i, exp))
     return out, in_range
+
+
+def _lz_expect(exp, p, off):
+    """canboat STRING_LZ: length byte, text, terminating zero; stated when the text lies inside the payload and is ASCII"""
+    ln = (p >> off) & 0xFF
+    if off + 8 * (1 + ln) <= 8 * ((p.bit_length() + 7) // 8):
+        body = ((p >> (off + 8)) & ((1 << (8 * ln)) - 1)).to_bytes(ln, "little")
+        if all(b < 128 for b in body):
+            exp["value"] = ("text", body.decode("ascii"))
 
 
 def _value_ok(exp, fld):
@@ -495,6 +755,8 @@ def search(ctx):
         pls = PL.payload_set(d, rng, per_field_classes=True, n_random=ctx.n(2, 8))
         if not ctx.thorough and len(pls) > 40:
             pls = pls[:6] + rng.sample(pls[6:], 34)
+        if _is_var_layout(d):
+            pls = pls + _var_layout_payloads(d, rng, ctx)
         for label, p in pls:
             try:
                 w = check_payload(d, p, tables, warm=(rng.random() < 0.4))
